@@ -2,7 +2,7 @@ IMPORTS = """From Coq Require Import List Bool Arith NArith Lia Relations Permut
 Import ListNotations.
 From BB Require Import BN Brute SpaceFacts TrapFacts PercolateFacts AttractorFacts Diagram Invariants Checks Filter
   Strict PetriNet Control Meta FilterFacts PetriNetFacts TrappistFacts DiagramStruct DiagramSem1 DiagramCache
-  DiagramDepth DiagramComplete Termination ControlFacts MetaFacts Candidates StrictFacts MinExpandFacts CandidatesFacts SymbolicTest SymbolicTestFacts."""
+  DiagramDepth DiagramComplete Termination ControlFacts MetaFacts Candidates StrictFacts MinExpandFacts CandidatesFacts SymbolicTest SymbolicTestFacts Signed ReductionFacts ControlFacts2 Main."""
 
 EX_NET = """
 (* non-vacuity: two bistable switches; x0'=x1, x1'=x0, x2'=x3, x3'=x2 *)
@@ -27,7 +27,9 @@ source-SCC and attractor-seed expansion are not modelled (their seeds are judged
            ("node_attractors_sound", "node_attractors_b_sound", None),
            ("node_attractors_complete", "node_attractors_b_complete", None),
            ("reaches_attractor", "reaches_attractor", "every state reaches an attractor (terminal SCCs exist)"),
-           ("attractor_in_percolation", "attractor_in_percolation", "attractors of a trap space stay inside its percolation (seeds lie in the node space)")],
+           ("attractor_in_percolation", "attractor_in_percolation", "attractors of a trap space stay inside its percolation (seeds lie in the node space)"),
+           ("pipeline_then_filter_exact", "pipeline_then_filter_exact", "candidate pipeline + filter = one seed per attractor of the node, given an NFVS"),
+           ("nfvs_reduction", "nfvs_reduction", None)],
  examples=EX_NET + """
 Example C01_example_attractors : length (attractors_b ex_sw) = 4.
 Proof. vm_compute. reflexivity. Qed.
@@ -117,12 +119,15 @@ decision procedure run on the implementation's interventions.""",
 
 SPEC["C07"] = dict(title="Control output is complete, minimal and honours the user's constraints", comment="""
 Model: Control.find_drivers (size classes in ascending order, supersets of found key sets skipped).
-PARTIAL: exactness of the succession list (all paths of the target-directed expansion x all motif choices)
-is decided by the correspondence run against Control.successions, not by a theorem.""",
+successions_spec / successions_nodup: the successions are exactly the chains of reduced motifs along all root
+paths to the end nodes, one motif per edge, each once; target_expansion_post: what the target-directed
+expansion expands.""",
  theorems=[("find_drivers_sound", "find_drivers_sound", "forcing, allowed variables only, within the size bound"),
            ("find_drivers_complete", "find_drivers_complete", "every admissible forcing assignment has a reported driver set on a subset of its variables"),
            ("find_drivers_minimal", "find_drivers_minimal", "no reported set strictly inside another"),
-           ("subsets_of_size_spec", "subsets_of_size_spec", None)],
+           ("subsets_of_size_spec", "subsets_of_size_spec", None),
+           ("successions_spec", "successions_spec", None), ("successions_nodup", "successions_nodup", None),
+           ("target_expansion_post", "target_expansion_post", None), ("reaches_lava_spec", "reaches_lava_spec", None)],
  examples="")
 
 SPEC["C08"] = dict(title="Attractor candidates cover every attractor under every option and limit setting", comment="""
@@ -132,12 +137,17 @@ run of the real pipeline is replayed on it (same sequence of solver calls, same 
 compute_candidates_covers_weak: for EVERY option combination and EVERY configuration value (0 included) a
 COk result consists of states of the node space covering every attractor of the node, under
 (a) the tape contracts (each solver answer is a duplicate-free prefix, of the length its limit allows, of
-the reduced fixed points; walks visit reachable states), (b) reduction_hyp: for every assignment of the NFVS
-the reduced fixed points hit every attractor (a signed-graph fact that is NOT proved; it is checked on every
-recorded instance by nfvs_reduction_ok_b, proved equivalent), and (c) for the empty-NFVS shortcut, that every
+the reduced fixed points; walks visit reachable states), (b) the retained variables hit every negative cycle of
+the node's semantic interaction graph (Signed.no_neg_walk; nfvs_reduction PROVES from it that for every
+assignment of them the reduced fixed points hit every attractor -- isotone source blocks, polarity switching,
+cascade over strongly connected components; the executable test no_neg_walk_b, proved exact, is run on every
+NFVS the code obtains from biodivine_aeon), and (c) for the empty-NFVS shortcut, that every
 fixed point of the node lies in an avoided space (true for expanded nodes of a faithful diagram; the formal
 counterexample without it is compute_candidates_covers_counterexample).""",
- theorems=[("pipeline_covers", "compute_candidates_covers_weak", None), ("pipeline_covers_nonempty_nfvs", "compute_candidates_covers_nonempty", None),
+ theorems=[("pipeline_covers_given_nfvs", "candidates_cover_nfvs", "the end-to-end statement"),
+           ("nfvs_reduction", "nfvs_reduction", "negative feedback vertex set => reduced fixed points hit every attractor"),
+           ("no_neg_walk_test_exact", "no_neg_walk_b_spec", None), ("graph_test_implies_brute_force_test", "no_neg_walk_b_reduction", None),
+           ("pipeline_covers", "compute_candidates_covers_weak", None), ("pipeline_covers_nonempty_nfvs", "compute_candidates_covers_nonempty", None),
            ("pipeline_complete", "compute_candidates_complete", "every COk result is an early exit or the complete fixed-point list of a total retained assignment (then possibly simulated)"),
            ("limit_zero_never_truncates", "compute_candidates_limit0", None), ("greedy_keeps_complete", "greedy_loop_complete", None),
            ("simulation_avoid_covers", "sim_avoid_covers", None), ("simulation_minimal_covers", "sim_min_covers", None), ("simulation_rounds_cover", "sim_rounds_covers", None),
